@@ -8,7 +8,7 @@ from __future__ import annotations
 
 from hypothesis import strategies as st
 
-from vlib import gen_maps, gen_unit, pipeline, xmap_text
+from vlib import gen_maps, gen_unit, join_unit, pipeline, xmap_text
 from vlib.core import Sub, Violation, req, sut
 from vlib.oracles import matching_problem
 
@@ -83,6 +83,23 @@ def unit_history_strategy(draw):
             c.pop("params", None)
         calls.append(c)
     return {"params": params, "calls": calls}
+
+
+def check_join_unit(case):
+    """every row that comes out of the first/second-pass join (joined or returned un-joined) is a valid matching"""
+    jr = join_unit.run(case)
+    nt = False
+    cl = {f"mode={case['mode']}"}
+    nref, nq = len(case["ref"]), len(case["query"])
+    for st_ in jr.steps:
+        for kind, rows in (("joined", st_["joined"]), ("un-joined", st_["separate"])):
+            for row in rows:
+                _check_pairs(join_unit.pairs_of(row), row.orientation, nref, nq,
+                             f"{kind} row out of resolve({st_['kind']}, fragment {st_['fragment']})")
+                if kind == "joined":
+                    nt = True
+                    cl.add("joined")
+    return {"nontrivial": nt, "classes": sorted(cl)}
 
 
 def check_run(run, cl):
@@ -180,6 +197,9 @@ def subchecks(tier):
         Sub("aligner-history", "hyp", check_unit_history, strategy=unit_history_strategy, examples=8000 if q else 200000, shrink_budget=600,
             describe="one Aligner instance reused for a query, its fragments (same id and length), the other strand and other molecules",
             required_classes=("then-fragment",)),
+        Sub("join-unit", "hyp", check_join_unit, strategy=join_unit.join_case, examples=8000 if q else 200000, shrink_budget=600,
+            describe="rows out of AlignmentResults.resolve(first-pass row, second-pass row of its own fragment), unit level",
+            required_classes=("joined",)),
         Sub("pipeline", "hyp", check_pipeline, strategy=pipeline_strategy, examples=1200 if q else 30000, shrink_budget=150,
             describe="every record of every file + every candidate, in-process", sample_filter=gen_maps.short_case,
             required_classes=("second-pass-record", "joined-record", "multi-segment-candidate")),
